@@ -162,7 +162,7 @@ Definition is_int_tag (t : Z) : bool := (t =? V_INT) || (t =? V_ENUM).
 (* every value tag that attribGroup.decode keeps as strings: the seven it names and
    every other non-delimiter byte *)
 Definition is_str_tag (t : Z) : bool :=
-  (5 <? t) && (t <? 256) && negb (is_int_tag t) && negb (t =? V_BOOL) && negb (t =? V_RANGE).
+  if is_int_tag t || (t =? V_BOOL) || (t =? V_RANGE) then false else (5 <? t) && (t <? 256).
 Definition nonempty {A} (l : list A) : bool := match l with [] => false | _ => true end.
 
 (* every value tag; names 1..2^15-1 bytes; at least one value (any number of them);
@@ -201,9 +201,10 @@ Qed.
 Lemma str_tag_kind t : is_str_tag t = true -> kind_of t = KStr /\ 5 < t.
 Proof.
   unfold is_str_tag, is_int_tag, kind_of. intros H.
-  repeat (apply andb_true_iff in H as [H ?]).
-  repeat match goal with Hx : negb _ = true |- _ => apply negb_true_iff in Hx; rewrite Hx end.
-  split; [reflexivity|lia].
+  destruct ((t =? V_INT) || (t =? V_ENUM)) eqn:E1; [discriminate|].
+  destruct (t =? V_BOOL) eqn:E2; [discriminate|].
+  destruct (t =? V_RANGE) eqn:E3; [discriminate|].
+  cbn [orb] in H. split; [reflexivity|lia].
 Qed.
 
 Lemma int_tag_kind t : is_int_tag t = true -> kind_of t = KInt /\ 5 < t.
@@ -283,8 +284,8 @@ Qed.
 
 Definition delim_start (rest : bytes) : Prop := exists b r, rest = b :: r /\ Z.of_N b <= 5.
 
-Lemma enc_attr_body_name fx a :
-  attr_ok fx a = true ->
+Lemma enc_attr_body_name a :
+  attr_ok a = true ->
   exists x, enc_attr_body a = be_enc 2 (zlen (attr_name a)) ++ x /\ 0 < zlen (attr_name a) < 2 ^ 15.
 Proof.
   destruct a as [t n vs|t n vs|t n vs|t n lo hi]; cbn [attr_ok attr_name enc_attr_body]; intros H;
@@ -294,27 +295,27 @@ Proof.
     (eexists; split; [reflexivity|lia]).
 Qed.
 
-Lemma follow_attrs fx t attrs rest :
-  5 < t -> forallb (attr_ok fx) attrs = true -> delim_start rest ->
+Lemma follow_attrs t attrs rest :
+  5 < t -> forallb attr_ok attrs = true -> delim_start rest ->
   follow_ok t (enc_attrs attrs ++ rest).
 Proof.
   intros Ht Hok (b & r & Hrest & Hb).
   destruct attrs as [|a l].
   - cbn [enc_attrs app]. exists b, r. split; [exact Hrest|left; lia].
   - cbn [forallb] in Hok. apply andb_true_iff in Hok as [Ha _].
-    cbn [enc_attrs]. rewrite (enc_attr_split fx a Ha).
-    destruct (enc_attr_body_name fx a Ha) as (x & Hx & Hn). rewrite Hx.
+    cbn [enc_attrs]. rewrite (enc_attr_split a Ha).
+    destruct (enc_attr_body_name a Ha) as (x & Hx & Hn). rewrite Hx.
     unfold enc_tag. rewrite <- !app_assoc. cbn [app].
     eexists _, _. split; [reflexivity|]. right. eexists _, _. split; [reflexivity|exact Hn].
 Qed.
 
-Lemma dec_group_loop_enc fx n rest :
+Lemma dec_group_loop_enc n rest :
   delim_start rest ->
   forall attrs pre racc fuel,
-    forallb (attr_ok fx) attrs = true ->
+    forallb attr_ok attrs = true ->
     forallb (fun a => Nat.ltb (attr_nvals a) n) attrs = true ->
     (length attrs < fuel)%nat ->
-    dec_group_loop fx n fuel (at_pos pre (enc_attrs attrs ++ rest) false) racc
+    dec_group_loop n fuel (at_pos pre (enc_attrs attrs ++ rest) false) racc
     = ROk (at_pos (pre ++ enc_attrs attrs) rest false, rev racc ++ attrs).
 Proof.
   intros Hrest.
@@ -326,27 +327,27 @@ Proof.
     rewrite d_seek_back1. reflexivity.
   - cbn [forallb] in Hok, Hnv.
     apply andb_true_iff in Hok as [Ha Hl]. apply andb_true_iff in Hnv as [Hna Hnl].
-    pose proof (attr_ok_tag fx a Ha) as Htag.
+    pose proof (attr_ok_tag a Ha) as Htag.
     destruct fuel as [|f]; [cbn in Hfuel; lia|].
-    cbn [enc_attrs]. rewrite (enc_attr_split fx a Ha), <- !app_assoc.
+    cbn [enc_attrs]. rewrite (enc_attr_split a Ha), <- !app_assoc.
     cbn [dec_group_loop]. rewrite d_tag_at by lia.
     assert (Hgt : (attr_tag a >? 5) = true) by lia. rewrite Hgt.
     change (d_err (at_pos (pre ++ enc_tag (attr_tag a)) (enc_attr_body a ++ enc_attrs l ++ rest) false)) with false.
     cbn iota.
-    rewrite (dec_value_enc fx n a _ (enc_attrs l ++ rest) false Ha
-               (follow_attrs fx _ l rest Htag Hl Hrest) ltac:(apply Nat.ltb_lt in Hna; exact Hna)).
+    rewrite (dec_value_enc n a _ (enc_attrs l ++ rest) false Ha
+               (follow_attrs _ l rest Htag Hl Hrest) ltac:(apply Nat.ltb_lt in Hna; exact Hna)).
     rewrite (IH _ (a :: racc) f Hl Hnl ltac:(cbn [length] in Hfuel; lia)).
     cbn [rev]. rewrite <- !app_assoc. reflexivity.
 Qed.
 
-Definition group_ok (fx : fixes) (n : nat) (g : group) : bool :=
+Definition group_ok (n : nat) (g : group) : bool :=
   (0 <=? g_tag g) && (g_tag g <=? 5) && negb (g_tag g =? T_END)
-  && forallb (attr_ok fx) (g_attrs g)
+  && forallb attr_ok (g_attrs g)
   && forallb (fun a => Nat.ltb (attr_nvals a) n) (g_attrs g)
   && Nat.ltb (length (g_attrs g)) n.
 
-Lemma groups_delim fx n gs doc :
-  forallb (group_ok fx n) gs = true -> delim_start (enc_groups gs ++ enc_tag T_END ++ doc).
+Lemma groups_delim n gs doc :
+  forallb (group_ok n) gs = true -> delim_start (enc_groups gs ++ enc_tag T_END ++ doc).
 Proof.
   destruct gs as [|g l]; intros H.
   - cbn [enc_groups app]. unfold enc_tag. cbn [app]. eexists _, _. split; [reflexivity|]. cbn. lia.
@@ -356,10 +357,10 @@ Proof.
     eexists _, _. split; [reflexivity|]. rewrite Z2N.id by lia. lia.
 Qed.
 
-Lemma dec_msg_loop_enc fx n doc :
+Lemma dec_msg_loop_enc n doc :
   forall gs pre racc fuel,
-    forallb (group_ok fx n) gs = true -> (length gs < fuel)%nat ->
-    dec_msg_loop fx n fuel (at_pos pre (enc_groups gs ++ enc_tag T_END ++ doc) false) racc
+    forallb (group_ok n) gs = true -> (length gs < fuel)%nat ->
+    dec_msg_loop n fuel (at_pos pre (enc_groups gs ++ enc_tag T_END ++ doc) false) racc
     = ROk (at_pos (pre ++ enc_groups gs ++ enc_tag T_END) doc false, rev racc ++ gs).
 Proof.
   induction gs as [|g l IH]; intros pre racc fuel Hok Hfuel.
@@ -367,7 +368,7 @@ Proof.
     destruct fuel as [|f]; [cbn in Hfuel; lia|].
     cbn [dec_msg_loop]. rewrite d_tag_at by (unfold T_END; lia).
     rewrite Z.eqb_refl. reflexivity.
-  - pose proof (groups_delim fx n l doc) as Hdel.
+  - pose proof (groups_delim n l doc) as Hdel.
     cbn [forallb] in Hok. apply andb_true_iff in Hok as [Hg Hl]. specialize (Hdel Hl).
     unfold group_ok in Hg. repeat (apply andb_true_iff in Hg as [Hg ?]).
     destruct fuel as [|f]; [cbn in Hfuel; lia|].
@@ -377,8 +378,8 @@ Proof.
       apply negb_true_iff in H; rewrite H end.
     change (d_err (at_pos (pre ++ enc_tag (g_tag g))
                           (enc_attrs (g_attrs g) ++ enc_groups l ++ enc_tag T_END ++ doc) false)) with false.
-    rewrite andb_false_r.
-    rewrite (dec_group_loop_enc fx n _ Hdel (g_attrs g) _ [] n) by
+    cbn iota.
+    rewrite (dec_group_loop_enc n _ Hdel (g_attrs g) _ [] n) by
       (try assumption; match goal with H : Nat.ltb _ _ = true |- _ => apply Nat.ltb_lt in H; exact H end).
     cbn [rev app].
     rewrite (IH _ (mkGroup (g_tag g) (g_attrs g) :: racc) f Hl ltac:(cbn [length] in Hfuel; lia)).
@@ -395,11 +396,11 @@ Definition is_end_group (g : group) : bool := (g_tag g =? T_END) && negb (nonemp
    request id, groups with delimiter tags 0..5 except 3 holding supported attributes,
    closed by the end-of-attributes group, any document; [n] bounds the numbers of
    groups, attributes per group and values per attribute (it is the fuel) *)
-Definition supported (fx : fixes) (n : nat) (m : msg) : bool :=
+Definition supported (n : nat) (m : msg) : bool :=
   (0 <=? m_maj m) && (m_maj m <? 256) && (0 <=? m_min m) && (m_min m <? 256)
   && (- 2 ^ 15 <=? m_op m) && (m_op m <? 2 ^ 15) && int_ok (m_reqid m)
   && nonempty (m_groups m) && is_end_group (last (m_groups m) end_group)
-  && forallb (group_ok fx n) (removelast (m_groups m))
+  && forallb (group_ok n) (removelast (m_groups m))
   && Nat.ltb (length (m_groups m)) n.
 
 Lemma be_enc1 v : 0 <= v < 256 -> be_enc 1 v = enc_tag v.
@@ -421,8 +422,8 @@ Qed.
 Lemma enc_groups_app a b : enc_groups (a ++ b) = enc_groups a ++ enc_groups b.
 Proof. induction a as [|g a IH]; cbn [enc_groups app]; [reflexivity|rewrite IH, app_assoc; reflexivity]. Qed.
 
-Lemma dec_msg_enc fx n m :
-  supported fx n m = true -> dec_msg fx n (enc_request m) = ROk m.
+Lemma dec_msg_enc n m :
+  supported n m = true -> dec_msg n (enc_request m) = ROk m.
 Proof.
   unfold supported. intros H. repeat (apply andb_true_iff in H as [H ?]).
   destruct m as [maj mi op rid gs doc]. cbn [m_maj m_min m_op m_reqid m_groups m_data] in *.
@@ -439,7 +440,7 @@ Proof.
   rewrite !d_tag_at by lia.
   rewrite d_int16_at by lia.
   unfold int_ok in *. rewrite d_int32_at by lia.
-  rewrite (dec_msg_loop_enc fx n doc gs' _ [] n) by
+  rewrite (dec_msg_loop_enc n doc gs' _ [] n) by
     (try assumption;
      match goal with H : Nat.ltb (length gs) n = true |- _ =>
        apply Nat.ltb_lt in H; rewrite Hgs, app_length in H; cbn [length] in H; lia end).
@@ -454,11 +455,557 @@ Proof.
 Qed.
 
 (* ------------------------------------------------------------------ *)
+(* termination for EVERY body, and independence of the result from the fuel *)
+
+(* d' is a later state of the same decoder: same buffer, cursor in bounds, error sticky *)
+Definition same (d d' : dec) : Prop :=
+  d_data d' = d_data d /\ wf d' /\ (d_err d = true -> d_err d' = true).
+(* ... reached by reads only: the cursor did not move back *)
+Definition fwd (d d' : dec) : Prop := same d d' /\ d_off d <= d_off d'.
+(* ... reached by reads and rewinds: no net move back unless an error was recorded *)
+Definition adv (d d' : dec) : Prop := same d d' /\ (d_err d' = false -> d_off d <= d_off d').
+
+Lemma same_dlen d d' : same d d' -> dlen d' = dlen d.
+Proof. intros (H & _). unfold dlen. rewrite H. reflexivity. Qed.
+
+Lemma fwd_refl d : wf d -> fwd d d.
+Proof. intros H. repeat split; auto; try apply H; lia. Qed.
+
+Lemma fwd_trans a b c : fwd a b -> fwd b c -> fwd a c.
+Proof.
+  intros ((H1 & H2 & H3) & H4) ((H5 & H6 & H7) & H8). repeat split; try apply H6; try lia; auto.
+  congruence.
+Qed.
+
+Lemma fwd_adv a b : fwd a b -> adv a b.
+Proof. intros (H & H'). split; [exact H|intros _; exact H']. Qed.
+
+Lemma adv_trans a b c : adv a b -> adv b c -> adv a c.
+Proof.
+  intros ((H1 & H2 & H3) & H4) ((H5 & H6 & H7) & H8). repeat split; try apply H6; auto.
+  - congruence.
+  - intros Hc. destruct (d_err b) eqn:Eb; [rewrite H7 in Hc by reflexivity; discriminate|].
+    specialize (H4 eq_refl). specialize (H8 Hc). lia.
+Qed.
+
+Lemma fwd_wf a b : fwd a b -> wf b.
+Proof. intros ((_ & H & _) & _). exact H. Qed.
+Lemma adv_wf a b : adv a b -> wf b.
+Proof. intros ((_ & H & _) & _). exact H. Qed.
+
+Lemma read_prim_cases d k sg :
+  read_prim d k sg false =
+    if has_bytes d k then (advance d k, snd (read_prim d k sg false)) else (set_err d, 0).
+Proof. unfold read_prim. destruct (has_bytes d k); reflexivity. Qed.
+
+Lemma advance_fwd d k : wf d -> 0 <= k -> has_bytes d k = true -> fwd d (advance d k).
+Proof.
+  intros Hw Hk Hb. apply has_bytes_spec in Hb. unfold fwd, same, wf, advance, dlen in *. cbn. repeat split; auto; lia.
+Qed.
+
+Lemma set_err_fwd d : wf d -> fwd d (set_err d).
+Proof. intros Hw. unfold fwd, same, wf, set_err, dlen in *. cbn. repeat split; auto; lia. Qed.
+
+Lemma read_prim_fwd d k sg : wf d -> 0 <= k -> fwd d (fst (read_prim d k sg false)).
+Proof.
+  intros Hw Hk. rewrite read_prim_cases. destruct (has_bytes d k) eqn:Hb; cbn [fst].
+  - apply advance_fwd; assumption.
+  - apply set_err_fwd, Hw.
+Qed.
+
+Lemma copy_fwd d n : wf d -> fwd d (fst (copy d n)).
+Proof.
+  intros Hw. unfold copy. destruct (n <? 0) eqn:Hn; cbn [fst]; [apply set_err_fwd, Hw|].
+  destruct (has_bytes d n) eqn:Hb; cbn [fst]; [apply advance_fwd; auto; lia|apply set_err_fwd, Hw].
+Qed.
+
+Lemma d_byte_fwd d : wf d -> fwd d (fst (d_byte d)).
+Proof. intros; apply read_prim_fwd; auto; lia. Qed.
+Lemma d_int16_fwd d : wf d -> fwd d (fst (d_int16 d)).
+Proof. intros; apply read_prim_fwd; auto; lia. Qed.
+Lemma d_int32_fwd d : wf d -> fwd d (fst (d_int32 d)).
+Proof. intros; apply read_prim_fwd; auto; lia. Qed.
+
+Lemma d_getdata_fwd d : wf d -> fwd d (fst (d_getdata d)).
+Proof.
+  intros Hw. unfold d_getdata. pose proof (d_int16_fwd d Hw) as H1.
+  destruct (d_int16 d) as [d1 l]. cbn [fst] in H1.
+  pose proof (copy_fwd d1 l (fwd_wf _ _ H1)) as H2.
+  destruct (copy d1 l) as [d2 v]. cbn [fst] in *. eapply fwd_trans; eauto.
+Qed.
+
+Lemma rd_int_fwd d : wf d -> fwd d (fst (rd_int d)).
+Proof.
+  intros Hw. unfold rd_int. pose proof (d_int16_fwd d Hw) as H1.
+  destruct (d_int16 d) as [d1 l]. cbn [fst] in H1.
+  eapply fwd_trans; [exact H1|]. apply d_int32_fwd, (fwd_wf _ _ H1).
+Qed.
+
+Lemma rd_str_fwd d : wf d -> fwd d (fst (rd_str d)).
+Proof. apply d_getdata_fwd. Qed.
+
+Lemma rd_bool_fwd d : wf d -> fwd d (fst (rd_bool d)).
+Proof.
+  intros Hw. unfold rd_bool. pose proof (d_int16_fwd d Hw) as H1.
+  destruct (d_int16 d) as [d1 l]. cbn [fst] in H1.
+  pose proof (d_byte_fwd d1 (fwd_wf _ _ H1)) as H2.
+  destruct (d_byte d1) as [d2 b]. cbn [fst] in *. eapply fwd_trans; eauto.
+Qed.
+
+(* Byte(): either it fitted (cursor + 1, error flag unchanged) or it returned 0 and
+   recorded an error *)
+Lemma d_byte_cases d d1 v :
+  wf d -> d_byte d = (d1, v) ->
+  fwd d d1 /\ ((d_off d1 = d_off d + 1 /\ d_err d1 = d_err d) \/ (v = 0 /\ d_err d1 = true)).
+Proof.
+  intros Hw H. pose proof (d_byte_fwd d Hw) as Hf. rewrite H in Hf. cbn [fst] in Hf.
+  split; [exact Hf|]. unfold d_byte in H. rewrite read_prim_cases in H.
+  destruct (has_bytes d 1); inversion H; subst; [left|right]; cbn; auto.
+Qed.
+
+Lemma d_seek_same d n :
+  wf d -> same d (d_seek d n) /\
+          (d_err (d_seek d n) = false -> d_off (d_seek d n) = d_off d + n /\ d_err d = false).
+Proof.
+  intros Hw. unfold d_seek. destruct (has_bytes d n) eqn:Hb.
+  - apply has_bytes_spec in Hb. unfold same, wf, advance, dlen in *. cbn. repeat split; auto; lia.
+  - unfold same, wf, set_err, dlen in *. cbn. repeat split; auto; try lia; discriminate.
+Qed.
+
+(* a non-zero Int16() followed by Seek(-2) is back where it was *)
+Lemma int16_seek_back d d1 l :
+  wf d -> d_int16 d = (d1, l) -> l <> 0 -> d_seek d1 (-2) = d.
+Proof.
+  intros Hw H Hl. unfold d_int16 in H. rewrite read_prim_cases in H.
+  destruct (has_bytes d 2) eqn:Hb; inversion H; subst; [|congruence].
+  apply has_bytes_spec in Hb. unfold d_seek.
+  assert (Hb' : has_bytes (advance d 2) (-2) = true).
+  { apply has_bytes_spec. unfold wf, advance, dlen in *. cbn. lia. }
+  rewrite Hb'. destruct d as [dd off e]. unfold advance. cbn. f_equal. lia.
+Qed.
+
+Section MoreTerm.
+  Context {V : Type} (rd : dec -> dec * V) (tag : Z).
+  Hypothesis Hrd : forall d, wf d -> fwd d (fst (rd d)).
+  Hypothesis Htag : tag <> 0.
+
+  Lemma more_fwd : forall fuel d vt acc d2 vs,
+    wf d -> more rd (Z.eqb tag) fuel d vt acc = Some (d2, vs) -> fwd d d2.
+  Proof.
+    induction fuel as [|f IH]; intros d vt acc d2 vs Hw H; cbn [more] in H;
+      destruct (tag =? vt) eqn:Et; try discriminate;
+      try (inversion H; subst; apply fwd_refl, Hw).
+    pose proof (d_int16_fwd d Hw) as H1.
+    destruct (d_int16 d) as [d1 l] eqn:E16. cbn [fst] in H1.
+    destruct (l =? 0) eqn:El.
+    - pose proof (Hrd d1 (fwd_wf _ _ H1)) as H2. destruct (rd d1) as [d2' v]. cbn [fst] in H2.
+      pose proof (d_byte_fwd d2' (fwd_wf _ _ H2)) as H3. destruct (d_byte d2') as [d3 vt']. cbn [fst] in H3.
+      apply IH in H; [|exact (fwd_wf _ _ H3)].
+      eapply fwd_trans; [exact H1|]. eapply fwd_trans; [exact H2|]. eapply fwd_trans; eauto.
+    - inversion H; subst. rewrite (int16_seek_back d d1 l Hw E16) by lia. apply fwd_refl, Hw.
+  Qed.
+
+  Lemma more_term : forall fuel d vt acc,
+    wf d -> ((tag =? vt) = true -> avail d < Z.of_nat fuel) ->
+    more rd (Z.eqb tag) fuel d vt acc <> None.
+  Proof.
+    induction fuel as [|f IH]; intros d vt acc Hw Hf; cbn [more];
+      destruct (tag =? vt) eqn:Et; try discriminate.
+    - specialize (Hf eq_refl). unfold wf, avail in *. lia.
+    - specialize (Hf eq_refl).
+      pose proof (d_int16_fwd d Hw) as H1.
+      destruct (d_int16 d) as [d1 l] eqn:E16. cbn [fst] in H1.
+      destruct (l =? 0) eqn:El; [|discriminate].
+      pose proof (Hrd d1 (fwd_wf _ _ H1)) as H2. destruct (rd d1) as [d2' v]. cbn [fst] in H2.
+      destruct (d_byte d2') as [d3 vt'] eqn:Eb.
+      destruct (d_byte_cases d2' d3 vt' (fwd_wf _ _ H2) Eb) as [H3 Hc].
+      apply IH; [exact (fwd_wf _ _ H3)|]. intros Et'.
+      destruct Hc as [[Ho _]|[Hv _]]; [|apply Z.eqb_eq in Et'; congruence].
+      pose proof (same_dlen _ _ (proj1 H1)). pose proof (same_dlen _ _ (proj1 H2)).
+      pose proof (same_dlen _ _ (proj1 H3)).
+      destruct H1 as [_ H1], H2 as [_ H2]. unfold avail in *. lia.
+  Qed.
+
+  Lemma tail_adv fuel d acc d' vs :
+    wf d -> tail_vals rd (Z.eqb tag) fuel d acc = Some (d', vs) -> adv d d'.
+  Proof.
+    intros Hw H. unfold tail_vals in H.
+    destruct (d_byte d) as [d1 vt] eqn:Eb.
+    destruct (d_byte_cases d d1 vt Hw Eb) as [H1 Hc].
+    destruct (more rd (Z.eqb tag) fuel d1 vt acc) as [[d2 vs']|] eqn:Em; [|discriminate].
+    inversion H; subst. pose proof (more_fwd _ _ _ _ _ _ (fwd_wf _ _ H1) Em) as H2.
+    destruct (d_seek_same d2 (-1) (fwd_wf _ _ H2)) as [Hs Hp].
+    destruct H1 as [(A1 & A2 & A3) A4], H2 as [(B1 & B2 & B3) B4], Hs as (C1 & C2 & C3).
+    split; [repeat split; try apply C2; auto; congruence|].
+    intros He. destruct (Hp He) as [Ho He2].
+    destruct Hc as [[Ho1 He1]|[_ He1]].
+    - lia.
+    - rewrite B3 in He2 by exact He1. discriminate.
+  Qed.
+
+  Lemma tail_term fuel d acc :
+    wf d -> avail d < Z.of_nat fuel -> tail_vals rd (Z.eqb tag) fuel d acc <> None.
+  Proof.
+    intros Hw Hf. unfold tail_vals.
+    destruct (d_byte d) as [d1 vt] eqn:Eb.
+    destruct (d_byte_cases d d1 vt Hw Eb) as [H1 _].
+    destruct (more rd (Z.eqb tag) fuel d1 vt acc) as [[d2 vs']|] eqn:Em; [discriminate|].
+    exfalso. revert Em. apply more_term; [exact (fwd_wf _ _ H1)|]. intros _.
+    pose proof (same_dlen _ _ (proj1 H1)). destruct H1 as [_ H1]. unfold avail in *. lia.
+  Qed.
+End MoreTerm.
+
+(* more fuel never changes a result *)
+Lemma more_mono {V} (rd : dec -> dec * V) cont : forall fuel fuel' d vt acc r,
+  (fuel <= fuel')%nat -> more rd cont fuel d vt acc = Some r -> more rd cont fuel' d vt acc = Some r.
+Proof.
+  induction fuel as [|f IH]; intros fuel' d vt acc r Hle H; cbn [more] in H.
+  - destruct (cont vt) eqn:Ec; [discriminate|]. destruct fuel'; cbn [more]; rewrite Ec; exact H.
+  - destruct fuel' as [|f']; [lia|]. cbn [more]. destruct (cont vt); [|exact H].
+    destruct (d_int16 d) as [d1 l]. destruct (l =? 0); [|exact H].
+    destruct (rd d1) as [d2 v]. destruct (d_byte d2) as [d3 vt'].
+    apply (IH f'); [lia|exact H].
+Qed.
+
+Lemma tail_mono {V} (rd : dec -> dec * V) cont fuel fuel' d acc r :
+  (fuel <= fuel')%nat -> tail_vals rd cont fuel d acc = Some r -> tail_vals rd cont fuel' d acc = Some r.
+Proof.
+  intros Hle H. unfold tail_vals in *. destruct (d_byte d) as [d1 vt].
+  destruct (more rd cont fuel d1 vt acc) as [[d2 vs]|] eqn:Em; [|discriminate].
+  rewrite (more_mono rd cont fuel fuel' d1 vt acc _ Hle Em). exact H.
+Qed.
+
+Section MultiTerm.
+  Context {V : Type} (rd : dec -> dec * V) (mk : bytes -> list V -> attr).
+  Hypothesis Hrd : forall d, wf d -> fwd d (fst (rd d)).
+
+  Lemma dec_multi_adv n d t d' a :
+    t <> 0 -> wf d -> dec_multi rd mk n d t = Some (d', a) -> adv d d'.
+  Proof.
+    intros Ht Hw H. unfold dec_multi in H.
+    pose proof (d_getdata_fwd d Hw) as H1. destruct (d_getdata d) as [d1 nm]. cbn [fst] in H1.
+    pose proof (Hrd d1 (fwd_wf _ _ H1)) as H2. destruct (rd d1) as [d2 v]. cbn [fst] in H2.
+    destruct (tail_vals rd (Z.eqb t) n d2 [v]) as [[d3 vs]|] eqn:Et; [|discriminate].
+    inversion H; subst.
+    eapply adv_trans; [apply fwd_adv; eapply fwd_trans; eauto|].
+    eapply (tail_adv rd t Hrd); [exact (fwd_wf _ _ H2)|exact Et].
+  Qed.
+
+  Lemma dec_multi_term n d t :
+    t <> 0 -> wf d -> dlen d < Z.of_nat n -> dec_multi rd mk n d t <> None.
+  Proof.
+    intros Ht Hw Hn. unfold dec_multi.
+    pose proof (d_getdata_fwd d Hw) as H1. destruct (d_getdata d) as [d1 nm]. cbn [fst] in H1.
+    pose proof (Hrd d1 (fwd_wf _ _ H1)) as H2. destruct (rd d1) as [d2 v]. cbn [fst] in H2.
+    destruct (tail_vals rd (Z.eqb t) n d2 [v]) as [[d3 vs]|] eqn:Et; [discriminate|].
+    exfalso. revert Et. apply (tail_term rd t Hrd Ht); [exact (fwd_wf _ _ H2)|].
+    pose proof (same_dlen _ _ (proj1 H1)). pose proof (same_dlen _ _ (proj1 H2)).
+    pose proof (fwd_wf _ _ H2) as Hw2. unfold wf, avail in *. lia.
+  Qed.
+
+  Lemma dec_multi_mono n n' d t r :
+    (n <= n')%nat -> dec_multi rd mk n d t = Some r -> dec_multi rd mk n' d t = Some r.
+  Proof.
+    intros Hle H. unfold dec_multi in *. destruct (d_getdata d) as [d1 nm]. destruct (rd d1) as [d2 v].
+    destruct (tail_vals rd (Z.eqb t) n d2 [v]) as [[d3 vs]|] eqn:Et; [|discriminate].
+    rewrite (tail_mono rd _ n n' d2 [v] _ Hle Et). exact H.
+  Qed.
+End MultiTerm.
+
+Lemma dec_range_fwd d t : wf d -> fwd d (fst (dec_range d t)).
+Proof.
+  intros Hw. unfold dec_range.
+  pose proof (d_getdata_fwd d Hw) as H1. destruct (d_getdata d) as [d1 nm]. cbn [fst] in H1.
+  pose proof (d_int16_fwd d1 (fwd_wf _ _ H1)) as H2. destruct (d_int16 d1) as [d2 x]. cbn [fst] in H2.
+  pose proof (d_int32_fwd d2 (fwd_wf _ _ H2)) as H3. destruct (d_int32 d2) as [d3 lo]. cbn [fst] in H3.
+  pose proof (d_int32_fwd d3 (fwd_wf _ _ H3)) as H4. destruct (d_int32 d3) as [d4 hi]. cbn [fst] in *.
+  eapply fwd_trans; [exact H1|]. eapply fwd_trans; [exact H2|]. eapply fwd_trans; eauto.
+Qed.
+
+Lemma dec_value_adv n d t d' a :
+  t <> 0 -> wf d -> dec_value n d t = ROk (d', a) -> adv d d'.
+Proof.
+  intros Ht Hw H. unfold dec_value in H. destruct (kind_of t).
+  - unfold dec_int in H. destruct (dec_multi rd_int (AInt t) n d t) as [[d2 a2]|] eqn:E; inversion H; subst.
+    eapply dec_multi_adv; eauto using rd_int_fwd.
+  - unfold dec_bool in H. destruct (dec_multi rd_bool (ABool t) n d t) as [[d2 a2]|] eqn:E; inversion H; subst.
+    eapply dec_multi_adv; eauto using rd_bool_fwd.
+  - unfold dec_str in H. destruct (dec_multi rd_str (AStr t) n d t) as [[d2 a2]|] eqn:E; inversion H; subst.
+    eapply dec_multi_adv; eauto using rd_str_fwd.
+  - inversion H. pose proof (dec_range_fwd d t Hw) as Hf. rewrite H1 in Hf. apply fwd_adv, Hf.
+Qed.
+
+Lemma dec_value_term n d t :
+  t <> 0 -> wf d -> dlen d < Z.of_nat n -> exists d' a, dec_value n d t = ROk (d', a).
+Proof.
+  intros Ht Hw Hn. unfold dec_value. destruct (kind_of t).
+  - unfold dec_int. destruct (dec_multi rd_int (AInt t) n d t) as [[d2 a2]|] eqn:E; [cbn; eauto|].
+    exfalso. revert E. apply dec_multi_term; auto using rd_int_fwd.
+  - unfold dec_bool. destruct (dec_multi rd_bool (ABool t) n d t) as [[d2 a2]|] eqn:E; [cbn; eauto|].
+    exfalso. revert E. apply dec_multi_term; auto using rd_bool_fwd.
+  - unfold dec_str. destruct (dec_multi rd_str (AStr t) n d t) as [[d2 a2]|] eqn:E; [cbn; eauto|].
+    exfalso. revert E. apply dec_multi_term; auto using rd_str_fwd.
+  - destruct (dec_range d t); eauto.
+Qed.
+
+Lemma dec_value_mono n n' d t r :
+  (n <= n')%nat -> dec_value n d t = r -> r <> RFuel -> dec_value n' d t = r.
+Proof.
+  intros Hle H Hr. unfold dec_value in *. destruct (kind_of t); try exact H.
+  - unfold dec_int in *. destruct (dec_multi rd_int (AInt t) n d t) as [x|] eqn:E; [|cbn in H; congruence].
+    rewrite (dec_multi_mono _ _ n n' d t x Hle E). exact H.
+  - unfold dec_bool in *. destruct (dec_multi rd_bool (ABool t) n d t) as [x|] eqn:E; [|cbn in H; congruence].
+    rewrite (dec_multi_mono _ _ n n' d t x Hle E). exact H.
+  - unfold dec_str in *. destruct (dec_multi rd_str (AStr t) n d t) as [x|] eqn:E; [|cbn in H; congruence].
+    rewrite (dec_multi_mono _ _ n n' d t x Hle E). exact H.
+Qed.
+
+(* iterations a loop of attribGroup.decode / ippMsg.decode can still make from [d]:
+   one once an error is recorded, otherwise at most one per remaining byte plus two *)
+Definition need (d : dec) : Z := if d_err d then 1 else avail d + 2.
+
+Lemma group_adv n : forall fuel d racc d' l,
+  wf d -> dec_group_loop n fuel d racc = ROk (d', l) -> adv d d'.
+Proof.
+  assert (Hexit : forall d d1 vtag, wf d -> d_byte d = (d1, vtag) -> adv d (d_seek d1 (-1))).
+  { intros d d1 vtag Hw Eb. destruct (d_byte_cases d d1 vtag Hw Eb) as [H1 Hc].
+    destruct (d_seek_same d1 (-1) (fwd_wf _ _ H1)) as [Hs Hp].
+    destruct H1 as [(A1 & A2 & A3) A4], Hs as (C1 & C2 & C3).
+    split; [repeat split; try apply C2; auto; congruence|].
+    intros He. destruct (Hp He) as [Ho He1].
+    destruct Hc as [[Ho1 _]|[_ He2]]; [lia|congruence]. }
+  induction fuel as [|f IH]; intros d racc d' l Hw H; cbn [dec_group_loop] in H;
+    destruct (d_byte d) as [d1 vtag] eqn:Eb; destruct (vtag >? 5) eqn:Eg; try discriminate;
+    try (inversion H; subst; eapply Hexit; eauto).
+  destruct (d_byte_cases d d1 vtag Hw Eb) as [H1 _].
+  destruct (d_err d1); [discriminate|].
+  destruct (dec_value n d1 vtag) as [[d2 a]| |] eqn:Ev; try discriminate.
+  pose proof (dec_value_adv n d1 vtag d2 a ltac:(lia) (fwd_wf _ _ H1) Ev) as H2.
+  apply IH in H; [|exact (adv_wf _ _ H2)].
+  eapply adv_trans; [apply fwd_adv, H1|]. eapply adv_trans; eauto.
+Qed.
+
+Lemma need_after d1 d2 f :
+  wf d1 -> adv d1 d2 -> d_err d1 = false -> avail d1 + 2 <= Z.of_nat f -> need d2 <= Z.of_nat f.
+Proof.
+  intros Hw [Hs Hp] He Hf. pose proof (same_dlen _ _ Hs). unfold need.
+  destruct (d_err d2) eqn:E2; [unfold wf, avail in *; lia|].
+  specialize (Hp eq_refl). unfold avail in *. lia.
+Qed.
+
+Lemma group_term n : forall fuel d racc,
+  wf d -> dlen d < Z.of_nat n -> need d <= Z.of_nat fuel ->
+  dec_group_loop n fuel d racc <> RFuel.
+Proof.
+  induction fuel as [|f IH]; intros d racc Hw Hn Hf; cbn [dec_group_loop];
+    destruct (d_byte d) as [d1 vtag] eqn:Eb; destruct (vtag >? 5) eqn:Eg; try discriminate.
+  - unfold need in Hf. destruct (d_err d); unfold wf, avail in *; lia.
+  - destruct (d_byte_cases d d1 vtag Hw Eb) as [H1 Hc].
+    destruct (d_err d1) eqn:E1; [discriminate|].
+    destruct Hc as [[Ho He]|[Hv He]]; [|congruence].
+    pose proof (same_dlen _ _ (proj1 H1)) as Hl.
+    destruct (dec_value_term n d1 vtag ltac:(lia) (fwd_wf _ _ H1) ltac:(lia)) as (d2 & a & Ev).
+    rewrite Ev.
+    pose proof (dec_value_adv n d1 vtag d2 a ltac:(lia) (fwd_wf _ _ H1) Ev) as H2.
+    apply IH; [exact (adv_wf _ _ H2)|pose proof (same_dlen _ _ (proj1 H2)); lia|].
+    apply (need_after d1 d2 f (fwd_wf _ _ H1) H2 E1).
+    unfold need in Hf. rewrite <- He in Hf. unfold avail in *. lia.
+Qed.
+
+Lemma group_mono n n' : forall fuel fuel' d racc r,
+  (n <= n')%nat -> (fuel <= fuel')%nat ->
+  dec_group_loop n fuel d racc = r -> r <> RFuel -> dec_group_loop n' fuel' d racc = r.
+Proof.
+  induction fuel as [|f IH]; intros fuel' d racc r Hn Hle H Hr; cbn [dec_group_loop] in H.
+  - destruct (d_byte d) as [d1 vtag] eqn:Eb. destruct (vtag >? 5) eqn:Eg; [congruence|].
+    destruct fuel'; cbn [dec_group_loop]; rewrite Eb, Eg; exact H.
+  - destruct fuel' as [|f']; [lia|]. cbn [dec_group_loop].
+    destruct (d_byte d) as [d1 vtag]. destruct (vtag >? 5); [|exact H].
+    destruct (d_err d1); [exact H|].
+    destruct (dec_value n d1 vtag) as [[d2 a]| |] eqn:Ev; try congruence.
+    + rewrite (dec_value_mono n n' d1 vtag _ Hn Ev) by discriminate.
+      apply (IH f'); auto; lia.
+    + rewrite (dec_value_mono n n' d1 vtag _ Hn Ev) by discriminate. exact H.
+Qed.
+
+Lemma msg_term n : forall fuel d racc,
+  wf d -> dlen d < Z.of_nat n -> need d <= Z.of_nat fuel ->
+  dec_msg_loop n fuel d racc <> RFuel.
+Proof.
+  induction fuel as [|f IH]; intros d racc Hw Hn Hf; cbn [dec_msg_loop];
+    destruct (d_byte d) as [d1 dtag] eqn:Eb; destruct (dtag =? T_END) eqn:Eg; try discriminate.
+  - unfold need in Hf. destruct (d_err d); unfold wf, avail in *; lia.
+  - destruct (d_byte_cases d d1 dtag Hw Eb) as [H1 Hc].
+    destruct (d_err d1) eqn:E1; [discriminate|].
+    destruct Hc as [[Ho He]|[Hv He]]; [|congruence].
+    pose proof (same_dlen _ _ (proj1 H1)) as Hl.
+    assert (Hf1 : avail d1 + 2 <= Z.of_nat f).
+    { unfold need in Hf. rewrite <- He in Hf. unfold avail in *. lia. }
+    destruct (dec_group_loop n n d1 []) as [[d2 attrs]| |] eqn:Eg2; try discriminate.
+    + pose proof (group_adv n n d1 [] d2 attrs (fwd_wf _ _ H1) Eg2) as H2.
+      apply IH; [exact (adv_wf _ _ H2)|pose proof (same_dlen _ _ (proj1 H2)); lia|].
+      apply (need_after d1 d2 f (fwd_wf _ _ H1) H2 E1 Hf1).
+    + exfalso. revert Eg2. apply group_term; [exact (fwd_wf _ _ H1)|lia|].
+      unfold need. rewrite E1. pose proof (fwd_wf _ _ H1) as Hw1. unfold wf, avail in *. lia.
+Qed.
+
+Lemma msg_mono n n' : forall fuel fuel' d racc r,
+  (n <= n')%nat -> (fuel <= fuel')%nat ->
+  dec_msg_loop n fuel d racc = r -> r <> RFuel -> dec_msg_loop n' fuel' d racc = r.
+Proof.
+  induction fuel as [|f IH]; intros fuel' d racc r Hn Hle H Hr; cbn [dec_msg_loop] in H.
+  - destruct (d_byte d) as [d1 dtag] eqn:Eb. destruct (dtag =? T_END) eqn:Eg; [|congruence].
+    destruct fuel'; cbn [dec_msg_loop]; rewrite Eb, Eg; exact H.
+  - destruct fuel' as [|f']; [lia|]. cbn [dec_msg_loop].
+    destruct (d_byte d) as [d1 dtag]. destruct (dtag =? T_END); [exact H|].
+    destruct (d_err d1); [exact H|].
+    destruct (dec_group_loop n n d1 []) as [[d2 attrs]| |] eqn:Eg2; try congruence.
+    + rewrite (group_mono n n' n n' d1 [] _ Hn Hn Eg2) by discriminate.
+      apply (IH f'); auto; lia.
+    + rewrite (group_mono n n' n n' d1 [] _ Hn Hn Eg2) by discriminate. exact H.
+Qed.
+
+(* the header reads of ippMsg.decode *)
+Lemma header_fwd raw :
+  let d := new_decoder raw in
+  let d1 := fst (d_byte d) in let d2 := fst (d_byte d1) in
+  let d3 := fst (d_int16 d2) in let d4 := fst (d_int32 d3) in
+  fwd d d4.
+Proof.
+  cbn zeta. pose proof (new_decoder_wf raw) as Hw.
+  pose proof (d_byte_fwd _ Hw) as H1.
+  pose proof (d_byte_fwd _ (fwd_wf _ _ H1)) as H2.
+  pose proof (d_int16_fwd _ (fwd_wf _ _ H2)) as H3.
+  pose proof (d_int32_fwd _ (fwd_wf _ _ H3)) as H4.
+  eapply fwd_trans; [exact H1|]. eapply fwd_trans; [exact H2|]. eapply fwd_trans; eauto.
+Qed.
+
+Lemma dec_msg_unfold n raw :
+  dec_msg n raw =
+  let d := new_decoder raw in
+  let d1 := fst (d_byte d) in let d2 := fst (d_byte d1) in
+  let d3 := fst (d_int16 d2) in let d4 := fst (d_int32 d3) in
+  match dec_msg_loop n n d4 [] with
+  | ROk (d5, gs) =>
+      if d_err (fst (copy d5 (avail d5))) then RErr
+      else ROk (mkMsg (snd (d_byte d)) (snd (d_byte d1)) (snd (d_int16 d2)) (snd (d_int32 d3))
+                      (gs ++ [mkGroup T_END []]) (val_bytes (snd (copy d5 (avail d5)))))
+  | RErr => RErr | RFuel => RFuel
+  end.
+Proof.
+  unfold dec_msg. cbn zeta.
+  destruct (d_byte (new_decoder raw)) as [d1 maj]. cbn [fst snd].
+  destruct (d_byte d1) as [d2 mi]. cbn [fst snd].
+  destruct (d_int16 d2) as [d3 op]. cbn [fst snd].
+  destruct (d_int32 d3) as [d4 rid]. cbn [fst snd].
+  destruct (dec_msg_loop n n d4 []) as [[d5 gs]| |]; try reflexivity.
+  destruct (copy d5 (avail d5)) as [d6 v]. reflexivity.
+Qed.
+
+(* ippMsg.decode returns for EVERY body: two more iterations than bytes always suffice *)
+Lemma dec_msg_terminates raw n : (fuel_for raw <= n)%nat -> dec_msg n raw <> RFuel.
+Proof.
+  intros Hn. rewrite dec_msg_unfold. cbn zeta.
+  pose proof (header_fwd raw) as Hf. cbn zeta in Hf.
+  set (d4 := fst (d_int32 _)) in *.
+  pose proof (same_dlen _ _ (proj1 Hf)) as Hl.
+  assert (Hraw : dlen (new_decoder raw) = Z.of_nat (length raw)) by reflexivity.
+  unfold fuel_for in Hn.
+  destruct (dec_msg_loop n n d4 []) as [[d5 gs]| |] eqn:E; try discriminate.
+  - destruct (d_err (fst (copy d5 (avail d5)))); discriminate.
+  - exfalso. revert E. apply msg_term; [exact (fwd_wf _ _ Hf)|lia|].
+    pose proof (fwd_wf _ _ Hf) as Hw. unfold need. destruct (d_err d4); unfold wf, avail in *; lia.
+Qed.
+
+Lemma dec_msg_terminates_bound raw :
+  exists n, (n <= length raw + 2)%nat /\ dec_msg n raw <> RFuel.
+Proof.
+  exists (fuel_for raw). split; [unfold fuel_for; lia|]. exact (dec_msg_terminates raw _ (le_n _)).
+Qed.
+
+Lemma dec_msg_mono raw n n' :
+  (n <= n')%nat -> dec_msg n raw <> RFuel -> dec_msg n' raw = dec_msg n raw.
+Proof.
+  intros Hle H. rewrite !dec_msg_unfold in *. cbn zeta in *.
+  set (d4 := fst (d_int32 _)) in *.
+  destruct (dec_msg_loop n n d4 []) as [[d5 gs]| |] eqn:E; try congruence.
+  - rewrite (msg_mono n n' n n' d4 [] _ Hle Hle E) by discriminate. reflexivity.
+  - rewrite (msg_mono n n' n n' d4 [] _ Hle Hle E) by discriminate. reflexivity.
+Qed.
+
+(* hence the result is the one computed with the run's fuel, whatever larger fuel *)
+Lemma dec_msg_fuel_indep raw n :
+  (fuel_for raw <= n)%nat -> dec_msg n raw = dec_msg (fuel_for raw) raw.
+Proof.
+  intros Hn. apply dec_msg_mono; [exact Hn|]. apply dec_msg_terminates. lia.
+Qed.
+
+(* ------------------------------------------------------------------ *)
+(* a body without end-of-attributes tag is refused *)
+
+Lemma d_byte_in d d1 v :
+  wf d -> d_byte d = (d1, v) -> v <> 0 -> In (Z.to_N v) (d_data d).
+Proof.
+  intros Hw H Hv. unfold d_byte, read_prim in H.
+  destruct (has_bytes d 1) eqn:Hb; [|inversion H; congruence].
+  apply has_bytes_spec in Hb. inversion H; subst. clear H.
+  unfold at_cursor, slice, wf, dlen, zlen in *.
+  replace (Z.to_nat (d_off d + 1 - d_off d)) with 1%nat in * by lia.
+  destruct (skipn (Z.to_nat (d_off d)) (d_data d)) as [|x r] eqn:Es.
+  - exfalso. apply Hv. reflexivity.
+  - cbn [firstn]. unfold be_val. cbn [be_val_acc].
+    replace (0 * 256 + Z.of_N x) with (Z.of_N x) by lia. rewrite N2Z.id.
+    rewrite <- (firstn_skipn (Z.to_nat (d_off d)) (d_data d)), Es.
+    apply in_or_app. right. left. reflexivity.
+Qed.
+
+Lemma msg_loop_ok_end n : forall fuel d racc d' gs,
+  wf d -> dec_msg_loop n fuel d racc = ROk (d', gs) -> In 3%N (d_data d).
+Proof.
+  assert (Hend : forall d d1 dtag, wf d -> d_byte d = (d1, dtag) -> (dtag =? T_END) = true -> In 3%N (d_data d)).
+  { intros d d1 dtag Hw Eb Eg. apply Z.eqb_eq in Eg. subst dtag.
+    apply (d_byte_in d d1 T_END Hw Eb). discriminate. }
+  induction fuel as [|f IH]; intros d racc d' gs Hw H; cbn [dec_msg_loop] in H;
+    destruct (d_byte d) as [d1 dtag] eqn:Eb; destruct (dtag =? T_END) eqn:Eg; try discriminate;
+    try solve [eapply Hend; eauto].
+  destruct (d_byte_cases d d1 dtag Hw Eb) as [H1 _].
+  destruct (d_err d1); [discriminate|].
+  destruct (dec_group_loop n n d1 []) as [[d2 attrs]| |] eqn:Eg2; try discriminate.
+  pose proof (group_adv n n d1 [] d2 attrs (fwd_wf _ _ H1) Eg2) as H2.
+  apply IH in H; [|exact (adv_wf _ _ H2)].
+  destruct H1 as [(A1 & _) _], H2 as [(B1 & _) _]. rewrite <- A1, <- B1. exact H.
+Qed.
+
+Lemma no_end_tag_refused raw n :
+  ~ In 3%N raw -> (fuel_for raw <= n)%nat -> dec_msg n raw = RErr.
+Proof.
+  intros Hno Hn. pose proof (dec_msg_terminates raw n Hn) as Ht.
+  rewrite dec_msg_unfold in *. cbn zeta in *.
+  pose proof (header_fwd raw) as Hf. cbn zeta in Hf.
+  set (d4 := fst (d_int32 _)) in *.
+  destruct (dec_msg_loop n n d4 []) as [[d5 gs]| |] eqn:E; try congruence.
+  exfalso. apply Hno.
+  pose proof (msg_loop_ok_end n n d4 [] d5 gs (fwd_wf _ _ Hf) E) as Hin.
+  destruct Hf as [(A1 & _) _]. rewrite A1 in Hin. exact Hin.
+Qed.
+
+Lemma no_end_tag_no_reply raw n :
+  ~ In 3%N raw -> (fuel_for raw <= n)%nat -> handler n raw = HNoReply.
+Proof. intros H Hn. unfold handler. rewrite (no_end_tag_refused raw n H Hn). reflexivity. Qed.
+
+(* every body gets an answer or a decode error: the handler returns *)
+Lemma handler_returns raw n : (fuel_for raw <= n)%nat -> handler n raw <> HHang.
+Proof.
+  intros Hn. pose proof (dec_msg_terminates raw n Hn). unfold handler.
+  destruct (dec_msg n raw); [unfold handle_msg; destruct (response_of a)| |]; congruence.
+Qed.
+
+(* ------------------------------------------------------------------ *)
 (* reply and event *)
 
-Lemma handler_enc fx n m :
-  supported fx n m = true -> handler fx n (enc_request m) = handle_msg fx m.
-Proof. intros H. unfold handler. rewrite (dec_msg_enc fx n m H). reflexivity. Qed.
+Lemma handler_enc n m :
+  supported n m = true -> handler n (enc_request m) = handle_msg m.
+Proof. intros H. unfold handler. rewrite (dec_msg_enc n m H). reflexivity. Qed.
 
 Lemma beq_eq a : forall b, beq a b = true <-> a = b.
 Proof.
@@ -466,6 +1013,9 @@ Proof.
   - apply andb_true_iff in H as [Hx Hab]. apply N.eqb_eq in Hx. apply IH in Hab. congruence.
   - inversion H; subst. rewrite N.eqb_refl. cbn. apply IH. reflexivity.
 Qed.
+
+Lemma beq_refl a : beq a a = true.
+Proof. apply beq_eq. reflexivity. Qed.
 
 Lemma beq_eqb a b : beq a b = eqb_bytes a b.
 Proof.
@@ -485,253 +1035,79 @@ Lemma names_distinct :
   eqb_bytes N_JOB N_URI = false /\ eqb_bytes N_JOB N_USER = false /\ eqb_bytes N_JOB N_FORMAT = false.
 Proof. vm_compute. repeat split. Qed.
 
-(* setPrintJobResponse leaves in uri / username / jobname the values of the attributes
-   printer-uri / requesting-user-name / job-name *)
-Lemma pj_scan_fields fx : forall l p p',
-  pj_scan fx l p = Some p' ->
-  pj_uri p' = lookup_from N_URI l (pj_uri p) /\
-  pj_user p' = lookup_from N_USER l (pj_user p) /\
-  pj_job p' = lookup_from N_JOB l (pj_job p).
+(* setPrintJobResponse leaves in uri / username / jobname the values of the string
+   attributes printer-uri / requesting-user-name / job-name, whatever else is there *)
+Lemma pj_scan_fields : forall l p,
+  pj_uri (pj_scan l p) = lookup_from N_URI l (pj_uri p) /\
+  pj_user (pj_scan l p) = lookup_from N_USER l (pj_user p) /\
+  pj_job (pj_scan l p) = lookup_from N_JOB l (pj_job p).
 Proof.
   destruct names_distinct as (D1 & D2 & D3 & D4 & D5 & D6 & D7 & D8 & D9 & D10 & D11 & D12).
-  induction l as [|a l IH]; intros p p' H; cbn [pj_scan lookup_from] in *.
-  - inversion H; subst; auto.
-  - destruct a as [t n vs|t n vs|t n vs|t n lo hi];
-      try (destruct (fx_printjob fx); [apply IH, H|discriminate]).
-    rewrite !beq_eqb.
-    apply IH in H. destruct H as (H1 & H2 & H3). rewrite H1, H2, H3. clear H1 H2 H3.
-    destruct (eqb_bytes n N_URI) eqn:E1.
-    { apply eqb_bytes_true in E1. subst n. rewrite D1, D3. cbn [pj_uri pj_user pj_job]. auto. }
-    destruct (eqb_bytes n N_USER) eqn:E2.
-    { apply eqb_bytes_true in E2. subst n. rewrite D6. cbn [pj_uri pj_user pj_job]. auto. }
-    destruct (eqb_bytes n N_FORMAT) eqn:E3.
-    { apply eqb_bytes_true in E3. subst n. rewrite D9. cbn [pj_uri pj_user pj_job]. auto. }
-    destruct (eqb_bytes n N_JOB) eqn:E4; cbn [pj_uri pj_user pj_job]; auto.
+  induction l as [|a l IH]; intros p; cbn [pj_scan lookup_from]; [auto|].
+  destruct a as [t n vs|t n vs|t n vs|t n lo hi]; try apply IH.
+  rewrite !beq_eqb.
+  match goal with |- context [pj_scan l ?q] => destruct (IH q) as (H1 & H2 & H3) end.
+  rewrite H1, H2, H3. clear H1 H2 H3.
+  destruct (eqb_bytes n N_URI) eqn:E1.
+  { apply eqb_bytes_true in E1. subst n. rewrite D1, D3. cbn [pj_uri pj_user pj_job]. auto. }
+  destruct (eqb_bytes n N_USER) eqn:E2.
+  { apply eqb_bytes_true in E2. subst n. rewrite D6. cbn [pj_uri pj_user pj_job]. auto. }
+  destruct (eqb_bytes n N_FORMAT) eqn:E3.
+  { apply eqb_bytes_true in E3. subst n. rewrite D9. cbn [pj_uri pj_user pj_job]. auto. }
+  destruct (eqb_bytes n N_JOB) eqn:E4; cbn [pj_uri pj_user pj_job]; auto.
 Qed.
-
-Lemma pj_scan_some fx : forall l p,
-  fx_printjob fx = true \/ forallb is_strattr l = true -> exists p', pj_scan fx l p = Some p'.
-Proof.
-  induction l as [|a l IH]; intros p H; cbn [pj_scan]; [eauto|].
-  destruct a as [t n vs|t n vs|t n vs|t n lo hi];
-    try (destruct H as [H|H]; [rewrite H; apply IH; auto|cbn in H; discriminate]).
-  apply IH. destruct H as [H|H]; [auto|right]. cbn [forallb is_strattr] in H. exact H.
-Qed.
-
-(* the print job does not run into the nil dereference of setPrintJobResponse *)
-Definition pj_safe (fx : fixes) (m : msg) : bool :=
-  negb (m_op m =? OP_PRINT_JOB) || fx_printjob fx || forallb is_strattr (first_op_attrs m).
 
 Lemma enc_groups_last extra : enc_groups (extra ++ [end_group]) = enc_groups extra ++ [3%N].
 Proof. rewrite enc_groups_app. reflexivity. Qed.
 
-Lemma reply_of_ok m extra p :
-  exists body, reply_of m extra p = HReply body (pj_uri p) (pj_user p) (pj_job p) (m_data m)
-               /\ reply_echo_ok m body = true.
+Lemma response_echo_ok m : reply_echo_ok m (enc_msg (fst (response_of m))) = true.
 Proof.
-  unfold reply_of. eexists. split; [reflexivity|].
+  unfold response_of. cbn [fst].
   unfold reply_echo_ok, echo_prefix, enc_msg. cbn [m_maj m_min m_op m_reqid m_groups].
   rewrite enc_groups_app. change (mkGroup T_END []) with end_group. rewrite enc_groups_last.
   apply andb_true_iff. split.
-  - rewrite !app_assoc. rewrite <- (app_assoc _ (enc_groups extra) [3%N]). apply is_prefix_app.
+  - rewrite !app_assoc.
+    match goal with |- is_prefix ?p ((?p ++ ?x) ++ ?y) = true => rewrite <- (app_assoc p x y) end.
+    apply is_prefix_app.
   - rewrite !app_assoc. rewrite last_last. reflexivity.
 Qed.
 
-Lemma handle_msg_ok fx m :
-  pj_safe fx m = true ->
+Lemma handle_msg_ok m :
   exists body uri user job,
-    handle_msg fx m = HReply body uri user job (m_data m) /\
+    handle_msg m = HReply body uri user job (m_data m) /\
     reply_echo_ok m body = true /\
     (m_op m = OP_PRINT_JOB ->
        uri = lookup_str N_URI (first_op_attrs m) /\
        user = lookup_str N_USER (first_op_attrs m) /\
        job = lookup_str N_JOB (first_op_attrs m)).
 Proof.
-  intros Hs. unfold handle_msg.
-  destruct (m_op m =? OP_GET_PRINTER_ATTR) eqn:E1.
-  { destruct (reply_of_ok m [printer_model] pj_empty) as (b & Hb & He).
-    eexists _, _, _, _. split; [exact Hb|]. split; [exact He|].
-    intros Hop. rewrite Hop in E1. discriminate. }
-  destruct (m_op m =? OP_PRINT_JOB) eqn:E2.
-  { unfold print_job_fields, pj_safe, first_op_attrs in *. rewrite E2 in Hs. cbn [negb orb] in Hs.
-    destruct (find is_op_group (m_groups m)) as [g|].
-    - destruct (pj_scan_some fx (g_attrs g) pj_empty) as (p & Hp).
-      { apply orb_true_iff in Hs. tauto. }
-      rewrite Hp. destruct (reply_of_ok m [] p) as (b & Hb & He).
-      eexists _, _, _, _. split; [exact Hb|]. split; [exact He|]. intros _.
-      apply (pj_scan_fields fx _ _ _ Hp).
-    - destruct (reply_of_ok m [] pj_empty) as (b & Hb & He).
-      eexists _, _, _, _. split; [exact Hb|]. split; [exact He|]. intros _.
-      cbn. auto. }
-  destruct (m_op m =? OP_CUPS_GET_DEVICES) eqn:E3.
-  { destruct (reply_of_ok m [mkGroup T_PRINTER []] pj_empty) as (b & Hb & He).
-    eexists _, _, _, _. split; [exact Hb|]. split; [exact He|].
-    intros Hop. rewrite Hop in E2. discriminate. }
-  destruct (reply_of_ok m [] pj_empty) as (b & Hb & He).
-  eexists _, _, _, _. split; [exact Hb|]. split; [exact He|].
-  intros Hop. rewrite Hop in E2. discriminate.
+  pose proof (response_echo_ok m) as He.
+  unfold handle_msg. destruct (response_of m) as [r p] eqn:Er. cbn [fst] in He.
+  eexists _, _, _, _. split; [reflexivity|]. split; [exact He|].
+  intros Hop. unfold response_of in Er. inversion Er as [[Hr Hp]]. clear Er Hr.
+  rewrite Hop. change (OP_PRINT_JOB =? OP_PRINT_JOB) with true. cbn iota.
+  unfold print_job_fields, lookup_str, first_op_attrs.
+  destruct (find is_op_group (m_groups m)) as [g|]; [|cbn; auto].
+  apply (pj_scan_fields (g_attrs g) pj_empty).
 Qed.
 
 (* the property, for every supported request: a reply is produced; it echoes version,
    request id, charset and language; the event carries the document and, for a print
    job, printer URI, user and job name unchanged *)
-Lemma request_served fx n m :
-  supported fx n m = true -> pj_safe fx m = true ->
+Lemma request_served n m :
+  supported n m = true ->
   exists body uri user job,
-    handler fx n (enc_request m) = HReply body uri user job (m_data m) /\
+    handler n (enc_request m) = HReply body uri user job (m_data m) /\
     reply_echo_ok m body = true /\
     (m_op m = OP_PRINT_JOB ->
        uri = lookup_str N_URI (first_op_attrs m) /\
        user = lookup_str N_USER (first_op_attrs m) /\
        job = lookup_str N_JOB (first_op_attrs m)).
-Proof. intros H Hs. rewrite (handler_enc fx n m H). apply handle_msg_ok, Hs. Qed.
-
-(* ... hence the model's observation passes the executable property of IppCheck *)
-Lemma data_ok_refl d : data_ok d (DOLit d) = true.
-Proof. cbn. apply beq_eq. reflexivity. Qed.
-
-Lemma model_meets_clause fx n m :
-  supported fx n m = true -> pj_safe fx m = true ->
-  match handler fx n (enc_request m) with
-  | HReply b u us j d => clause_sig m (m_data m) (OReply b u us j (DOLit d)) = 0%N
-  | _ => False
-  end.
-Proof.
-  intros H Hs. destruct (request_served fx n m H Hs) as (b & u & us & j & Hh & He & Hf).
-  rewrite Hh. unfold clause_sig. rewrite He. cbn [negb].
-  destruct (m_op m =? OP_PRINT_JOB) eqn:E.
-  - apply Z.eqb_eq in E. destruct (Hf E) as (-> & -> & ->).
-    assert (R : forall x, beq x x = true) by (intros; apply beq_eq; reflexivity).
-    rewrite !R. cbn [andb negb]. rewrite data_ok_refl. reflexivity.
-  - cbn [andb]. rewrite data_ok_refl. reflexivity.
-Qed.
-
-(* ------------------------------------------------------------------ *)
-Import String.StringSyntax.
-Local Open Scope string_scope.
-Local Open Scope list_scope.
-Local Open Scope Z_scope.
-(* the code as it is: witnesses outside [supported as_coded] *)
-
-Definition a_charset := AStr V_CHARSET (str "attributes-charset") [str "utf-8"].
-Definition a_lang := AStr V_LANG (str "attributes-natural-language") [str "en"].
-Definition a_uri := AStr V_URI N_URI [str "ipp://192.0.2.1/printers/p"].
-Definition a_job := AStr V_NAME N_JOB [str "report"].
-
-(* a boolean attribute followed by other attributes and a document *)
-Definition w_bool : msg :=
-  mkMsg 1 1 OP_PRINT_JOB 1
-        [mkGroup T_OP [a_charset; a_lang; a_uri]; mkGroup T_JOB [ABool V_BOOL (str "last-document") [true]; AInt V_INT (str "copies") [2]]; end_group]
-        (str "%PDF").
-(* a boolean attribute at the very end, no document *)
-Definition w_bool_last : msg :=
-  mkMsg 1 1 OP_GET_PRINTER_ATTR 2 [mkGroup T_OP [a_charset; a_lang; ABool V_BOOL (str "my-jobs") [true]]; end_group] [].
-(* three integer values *)
-Definition w_int3 : msg :=
-  mkMsg 2 0 OP_PRINT_JOB 6 [mkGroup T_OP [a_charset; a_lang; a_uri]; mkGroup T_JOB [AInt V_INT (str "copies") [1; 2; 3]]; end_group] (str "d").
-(* rangeOfInteger in the operation group of a print job, job-name after it *)
-Definition w_range : msg :=
-  mkMsg 1 1 OP_PRINT_JOB 3 [mkGroup T_OP [a_charset; a_lang; a_uri; ARange V_RANGE (str "page-ranges") 1 2; a_job]; end_group] (str "x").
-(* print job with an integer operation attribute *)
-Definition w_pj_int : msg :=
-  mkMsg 1 1 OP_PRINT_JOB 5 [mkGroup T_OP [a_charset; a_lang; a_uri; AInt V_INT (str "job-k-octets") [12]]; end_group] (str "data").
-(* an octetString attribute (value tag 0x30, not in the switch of attribGroup.decode) *)
-Definition w_unknown_raw : bytes :=
-  [1; 1; 0; 11; 0; 0; 0; 1; 1; 48; 0; 1; 110; 0; 1; 118; 3]%N.
-
-Lemma w_bool_refuted :
-  supported patched 20 w_bool = true /\
-  exists m', dec_msg as_coded 20 (enc_request w_bool) = ROk m' /\ m' <> w_bool.
-Proof. split; [vm_compute; reflexivity|]. eexists. split; [vm_compute; reflexivity|discriminate]. Qed.
-
-Lemma w_bool_last_refuted :
-  supported patched 20 w_bool_last = true /\
-  handler as_coded (N.to_nat 3000) (enc_request w_bool_last) = HHang.
-Proof. split; vm_compute; reflexivity. Qed.
-
-Lemma w_int3_refuted :
-  supported patched 20 w_int3 = true /\
-  exists m', dec_msg as_coded 20 (enc_request w_int3) = ROk m' /\ m' <> w_int3.
-Proof. split; [vm_compute; reflexivity|]. eexists. split; [vm_compute; reflexivity|discriminate]. Qed.
-
-Lemma w_range_refuted :
-  supported patched 20 w_range = true /\
-  handler as_coded 20 (enc_request w_range) = HPanic /\
-  exists m', dec_msg as_coded 20 (enc_request w_range) = ROk m' /\ m' <> w_range.
-Proof.
-  split; [vm_compute; reflexivity|]. split; [vm_compute; reflexivity|].
-  eexists. split; [vm_compute; reflexivity|discriminate].
-Qed.
-
-Lemma w_pj_int_refuted :
-  supported as_coded 20 w_pj_int = true /\ handler as_coded 20 (enc_request w_pj_int) = HPanic.
-Proof. split; vm_compute; reflexivity. Qed.
-
-Lemma w_unknown_refuted : forall n, (2 <= n)%nat -> handler as_coded n w_unknown_raw = HPanic.
-Proof.
-  intros n Hn. destruct n as [|[|n]]; [lia|lia|]. reflexivity.
-Qed.
-
-(* the repaired code serves all of them *)
-Lemma witnesses_patched :
-  dec_msg patched 20 (enc_request w_bool) = ROk w_bool /\
-  dec_msg patched 20 (enc_request w_bool_last) = ROk w_bool_last /\
-  dec_msg patched 20 (enc_request w_int3) = ROk w_int3 /\
-  dec_msg patched 20 (enc_request w_range) = ROk w_range /\
-  (exists b u us j d, handler patched 20 (enc_request w_pj_int) = HReply b u us j d) /\
-  (exists b u us j d, handler patched 20 w_unknown_raw = HReply b u us j d).
-Proof.
-  repeat split; try (vm_compute; reflexivity); eexists _, _, _, _, _; vm_compute; reflexivity.
-Qed.
-
-(* a body without end-of-attributes tag: the group loop of ippMsg.decode never ends,
-   whatever the fuel (here: the empty body) *)
-Definition D0 : dec := mkDec [] 0 true.
-
-Lemma group_loop_D0 n fuel : dec_group_loop as_coded n fuel D0 [] = ROk (D0, []).
-Proof. destruct fuel; reflexivity. Qed.
-
-Lemma msg_loop_D0 n : forall fuel racc, dec_msg_loop as_coded n fuel D0 racc = RFuel.
-Proof.
-  induction fuel as [|f IH]; intros racc; [reflexivity|].
-  cbn [dec_msg_loop]. change (d_byte D0) with (D0, 0). cbn iota beta.
-  change (0 =? T_END) with false. cbn iota.
-  change (fx_endtag as_coded && d_err D0) with false. cbn iota.
-  rewrite group_loop_D0. apply IH.
-Qed.
-
-Lemma empty_body_diverges : forall n, handler as_coded n [] = HHang.
-Proof.
-  intros n. unfold handler, dec_msg.
-  change (new_decoder []) with (mkDec [] 0 false).
-  change (d_byte (mkDec [] 0 false)) with (D0, 0). cbn iota beta.
-  change (d_byte D0) with (D0, 0). cbn iota beta.
-  change (d_int16 D0) with (D0, 0). cbn iota beta.
-  change (d_int32 D0) with (D0, 0). cbn iota beta.
-  rewrite msg_loop_D0. reflexivity.
-Qed.
-
-(* after C17-ipp-missing-end-tag.patch the same request is refused *)
-Lemma empty_body_patched : forall n, (1 <= n)%nat -> handler patched n [] = HNoReply.
-Proof. intros n Hn. destruct n as [|n]; [lia|]. reflexivity. Qed.
-
-(* non-vacuity of [supported]: requests the code as it is serves *)
-Definition ex_print_job : msg :=
-  mkMsg 2 0 OP_PRINT_JOB (-2)
-        [mkGroup T_OP [a_charset; a_lang; a_uri; AStr V_NAME N_USER [str "alice"]; a_job;
-                       AStr V_MIME N_FORMAT [str "application/pdf"]];
-         mkGroup T_JOB [AInt V_INT (str "copies") [2]; AInt V_ENUM (str "finishings") [3; 4];
-                        AStr V_KEYWORD (str "sides") [str "one-sided"; []; str "x"]];
-         end_group]
-        (str "%PDF-1.4 hello").
-
-Lemma ex_print_job_supported :
-  supported as_coded 20 ex_print_job = true /\ pj_safe as_coded ex_print_job = true.
-Proof. split; vm_compute; reflexivity. Qed.
+Proof. intros H. rewrite (handler_enc n m H). apply handle_msg_ok. Qed.
 
 (* ------------------------------------------------------------------ *)
 (* the fuel used by the correspondence run ([fuel_for]: two more than the number of
-   bytes) suffices for every supported request *)
+   bytes) is within [supported]'s bounds for every supported request *)
 
 Lemma enc_vals_len {V} (ev : V -> bytes) t nm : forall vs first,
   (length vs <= length (enc_vals ev t nm first vs))%nat.
@@ -747,7 +1123,7 @@ Proof.
   unfold enc_tag. cbn [app length]. lia.
 Qed.
 
-Lemma attr_ok_nvals fx a : attr_ok fx a = true -> (1 <= attr_nvals a)%nat.
+Lemma attr_ok_nvals a : attr_ok a = true -> (1 <= attr_nvals a)%nat.
 Proof.
   destruct a as [t n vs|t n vs|t n vs|t n lo hi]; cbn [attr_ok attr_nvals]; intros H;
     repeat (apply andb_true_iff in H as [H ?]);
@@ -755,15 +1131,15 @@ Proof.
   lia.
 Qed.
 
-Lemma enc_attrs_len fx : forall l,
-  forallb (attr_ok fx) l = true ->
+Lemma enc_attrs_len : forall l,
+  forallb attr_ok l = true ->
   (length l <= length (enc_attrs l))%nat /\
   (forall a, In a l -> (attr_nvals a <= length (enc_attrs l))%nat).
 Proof.
   induction l as [|a l IH]; intros H; cbn [enc_attrs length].
   - split; [lia|intros a []].
   - cbn [forallb] in H. apply andb_true_iff in H as [Ha Hl]. destruct (IH Hl) as [IH1 IH2].
-    pose proof (enc_attr_len a). pose proof (attr_ok_nvals fx a Ha).
+    pose proof (enc_attr_len a). pose proof (attr_ok_nvals a Ha).
     rewrite app_length. split; [lia|].
     intros b [<-|Hb]; [lia|]. specialize (IH2 b Hb). lia.
 Qed.
@@ -778,8 +1154,8 @@ Proof.
     intros h [<-|Hh]; [lia|]. specialize (IH2 h Hh). lia.
 Qed.
 
-Lemma supported_fuel_for fx n m :
-  supported fx n m = true -> supported fx (fuel_for (enc_request m)) m = true.
+Lemma supported_fuel_for n m :
+  supported n m = true -> supported (fuel_for (enc_request m)) m = true.
 Proof.
   unfold supported. intros H. repeat (apply andb_true_iff in H as [H ?]).
   assert (Hlen : (length (enc_groups (m_groups m)) <= length (enc_request m))%nat).
@@ -790,12 +1166,12 @@ Proof.
   rewrite H, H9, H8, H7, H6, H5, H4, H3, H2. cbn [andb].
   apply andb_true_iff; split.
   - apply forallb_forall. intros g Hg.
-    match goal with H : forallb (group_ok fx n) _ = true |- _ =>
+    match goal with H : forallb (group_ok n) _ = true |- _ =>
       rewrite forallb_forall in H; specialize (H g Hg); rename H into Hok end.
     assert (Hin : In g (m_groups m)) by (rewrite Hgs; apply in_or_app; auto).
     specialize (L2 g Hin).
     unfold group_ok in *. repeat (apply andb_true_iff in Hok as [Hok ?]).
-    destruct (enc_attrs_len fx (g_attrs g)) as [A1 A2]; [assumption|].
+    destruct (enc_attrs_len (g_attrs g)) as [A1 A2]; [assumption|].
     repeat match goal with Hx : ?b = true |- context [?b] => rewrite Hx end. cbn [andb].
     apply andb_true_iff; split.
     + apply forallb_forall. intros a Ha. specialize (A2 a Ha).
@@ -804,8 +1180,124 @@ Proof.
   - apply Nat.ltb_lt. unfold fuel_for. lia.
 Qed.
 
-(* the form used by the correspondence run: model fuel = fuel_for of the bytes sent *)
-Lemma dec_msg_enc_fuel_for fx n m :
-  supported fx n m = true ->
-  dec_msg fx (fuel_for (enc_request m)) (enc_request m) = ROk m.
-Proof. intros H. apply dec_msg_enc, (supported_fuel_for fx n m H). Qed.
+(* the round trip with ANY fuel from the run's fuel upwards *)
+Lemma dec_msg_enc_any_fuel n0 m n :
+  supported n0 m = true -> (fuel_for (enc_request m) <= n)%nat ->
+  dec_msg n (enc_request m) = ROk m.
+Proof.
+  intros H Hn. rewrite (dec_msg_fuel_indep _ n Hn).
+  apply dec_msg_enc, (supported_fuel_for n0 m H).
+Qed.
+
+(* ------------------------------------------------------------------ *)
+(* the model's observations pass the executable property of IppCheck *)
+
+Lemma list_eqb_refl {A} (e : A -> A -> bool) (He : forall x, e x x = true) l : list_eqb e l l = true.
+Proof. induction l as [|x l IH]; cbn [list_eqb]; [reflexivity|rewrite He, IH; reflexivity]. Qed.
+
+Lemma attr_eqb_refl a : attr_eqb a a = true.
+Proof.
+  destruct a as [t n vs|t n vs|t n vs|t n lo hi]; cbn [attr_eqb];
+    rewrite ?Z.eqb_refl, ?beq_refl; cbn [andb];
+    try (apply list_eqb_refl; first [exact Z.eqb_refl|exact beq_refl|intros []; reflexivity]).
+  reflexivity.
+Qed.
+
+Lemma msg_eqb_refl m : msg_eqb m m = true.
+Proof.
+  unfold msg_eqb. rewrite !Z.eqb_refl. cbn [andb].
+  apply list_eqb_refl. intros g. unfold group_eqb. rewrite Z.eqb_refl. cbn [andb].
+  apply list_eqb_refl, attr_eqb_refl.
+Qed.
+
+Lemma data_ok_refl d : data_ok d (DOLit d) = true.
+Proof. cbn. apply beq_refl. Qed.
+
+(* the case the model itself produces for a request *)
+Definition model_case (id : N) (m : msg) : icase :=
+  let raw := enc_request m in
+  mkICase id true m (enc_msg m) (DLit (m_data m))
+          (match handler (fuel_for raw) raw with
+           | HReply b u us j d => OReply b u us j (DOLit d)
+           | HNoReply => ONoReply
+           | HHang => OHang
+           end)
+          (match dec_msg (fuel_for raw) raw with
+           | ROk m' => DMsg m' (DOLit (m_data m'))
+           | RErr => DErr
+           | RFuel => DHang
+           end)
+          true [] true.
+
+Lemma model_meets_clause id n m :
+  supported n m = true -> case_sig (model_case id m) = 0%N.
+Proof.
+  intros H. pose proof (supported_fuel_for n m H) as Hf.
+  unfold case_sig, model_case. cbn [c_structured]. cbn zeta.
+  replace (clause_sig _) with 0%N; [reflexivity|]. symmetry.
+  unfold clause_sig. cbn [c_msg c_doc c_dec c_obs c_hsame doc_bytes].
+  rewrite (dec_msg_enc _ m Hf).
+  destruct (request_served _ m Hf) as (b & u & us & j & Hh & He & Hp). rewrite Hh.
+  unfold decode_sig. rewrite msg_eqb_refl, data_ok_refl. cbn [andb negb N.eqb].
+  unfold reply_sig. rewrite He. cbn [negb].
+  assert (Hfields : (m_op m =? OP_PRINT_JOB)
+            && negb (beq u (lookup_str N_URI (first_op_attrs m))
+                     && beq us (lookup_str N_USER (first_op_attrs m))
+                     && beq j (lookup_str N_JOB (first_op_attrs m))) = false).
+  { destruct (m_op m =? OP_PRINT_JOB) eqn:E; [|reflexivity].
+    apply Z.eqb_eq in E. destruct (Hp E) as (-> & -> & ->). rewrite !beq_refl. reflexivity. }
+  rewrite Hfields, data_ok_refl. cbn [negb N.eqb].
+  reflexivity.
+Qed.
+
+(* ------------------------------------------------------------------ *)
+(* examples *)
+Import String.StringSyntax.
+Local Open Scope string_scope.
+Local Open Scope list_scope.
+Local Open Scope Z_scope.
+
+Definition a_charset := AStr V_CHARSET (str "attributes-charset") [str "utf-8"].
+Definition a_lang := AStr V_LANG (str "attributes-natural-language") [str "en"].
+Definition a_uri := AStr V_URI N_URI [str "ipp://192.0.2.1/printers/p"].
+Definition a_job := AStr V_NAME N_JOB [str "report"].
+
+(* the requests that the code mishandled before the fix: commits *)
+Definition w_bool : msg :=
+  mkMsg 1 1 OP_PRINT_JOB 1
+        [mkGroup T_OP [a_charset; a_lang; a_uri]; mkGroup T_JOB [ABool V_BOOL (str "last-document") [true]; AInt V_INT (str "copies") [2]]; end_group]
+        (str "%PDF").
+Definition w_bool_last : msg :=
+  mkMsg 1 1 OP_GET_PRINTER_ATTR 2 [mkGroup T_OP [a_charset; a_lang; ABool V_BOOL (str "my-jobs") [true; false]]; end_group] [].
+Definition w_int3 : msg :=
+  mkMsg 2 0 OP_PRINT_JOB 6 [mkGroup T_OP [a_charset; a_lang; a_uri]; mkGroup T_JOB [AInt V_INT (str "copies") [1; 2; 3; 4]]; end_group] (str "d").
+Definition w_range : msg :=
+  mkMsg 1 1 OP_PRINT_JOB 3 [mkGroup T_OP [a_charset; a_lang; a_uri; ARange V_RANGE (str "page-ranges") 1 (-1); a_job]; end_group] (str "x").
+Definition w_pj_int : msg :=
+  mkMsg 1 1 OP_PRINT_JOB 5 [mkGroup T_OP [a_charset; a_lang; a_uri; AInt V_INT (str "job-k-octets") [12]; a_job]; end_group] (str "data").
+(* an octetString attribute (value tag 0x30): kept as an opaque string *)
+Definition w_opaque : msg :=
+  mkMsg 1 1 OP_GET_PRINTER_ATTR 1 [mkGroup T_OP [AStr 48 (str "n") [str "v"]]; end_group] [].
+
+Lemma former_witnesses_supported :
+  supported 20 w_bool = true /\ supported 20 w_bool_last = true /\ supported 20 w_int3 = true /\
+  supported 20 w_range = true /\ supported 20 w_pj_int = true /\ supported 20 w_opaque = true /\
+  exists b u us, handler 20 (enc_request w_pj_int)
+                 = HReply b u us (lookup_str N_JOB (first_op_attrs w_pj_int)) (m_data w_pj_int).
+Proof. repeat split; try (vm_compute; reflexivity). eexists _, _, _. vm_compute. reflexivity. Qed.
+
+Lemma empty_body_refused : forall n, (2 <= n)%nat -> handler n [] = HNoReply.
+Proof. intros n Hn. apply no_end_tag_no_reply; [intros []|exact Hn]. Qed.
+
+Definition ex_print_job : msg :=
+  mkMsg 2 0 OP_PRINT_JOB (-2)
+        [mkGroup T_OP [a_charset; a_lang; a_uri; AStr V_NAME N_USER [str "alice"]; a_job;
+                       AStr V_MIME N_FORMAT [str "application/pdf"]; ABool V_BOOL (str "ipp-attribute-fidelity") [false]];
+         mkGroup T_JOB [AInt V_INT (str "copies") [2]; AInt V_ENUM (str "finishings") [3; 4; 5];
+                        ARange V_RANGE (str "page-ranges") 1 5;
+                        AStr V_KEYWORD (str "sides") [str "one-sided"; []; str "x"]];
+         end_group]
+        (str "%PDF-1.4 hello").
+
+Lemma ex_print_job_supported : supported 20 ex_print_job = true.
+Proof. vm_compute. reflexivity. Qed.
